@@ -271,7 +271,7 @@ def check_cfg(ctx, fx, cfg):
         root = f.get("root", f["def"])
         short = root.split("::")[-1]
         inst = "%s@%s" % (short, cfg)
-        n = nfa.build(b, A)
+        n = nfa.build(b, A, fx, depth=2)  # helpers that are lent the locked table run inside the critical section
         writes = len(nfa.edges_labelled(n, "call:mapinsert")) + len(nfa.edges_labelled(n, "call:mapremove")) > 0
         spawns = len(nfa.edges_labelled(n, "call:spawn")) > 0
         viols, ps = nfa.check(n, LockScope(writes, spawns))
@@ -324,7 +324,14 @@ def check_cfg(ctx, fx, cfg):
             ch = chain(b, {"k": "move", "p": [0]})
             names = [t["callee"].split("::")[-1] for t in ch]
             filt = [t for t in ch if t["callee"].endswith("::filter")]
-            ok = "get" in names and len(filt) == 1 and filter_is_running(ctx, fx, b, filt[0])
+            has_get = "get" in names
+            for ct_ in ch:
+                h_ = fx.callee_fn(ct_)
+                if not has_get and h_ is not None and not h_.get("is_async"):
+                    # the map lookup may be a small helper that is lent the locked table (`registered::<Self>(&registry)`)
+                    hnames = [x["callee"].split("::")[-1] for x in chain(ctx.body(fx, h_), {"k": "move", "p": [0]})]
+                    has_get = "get" in hnames or "get_mut" in hnames
+            ok = has_get and len(filt) == 1 and filter_is_running(ctx, fx, b, filt[0])
             ctx.require(ok, "R08.3", inst, "try_from_registry must hand out the registered address only behind the `running` filter: pipeline %s" % names, fn=f["def"], site=f["loc"], detail=names)
         elif short == "already_running":
             lives = []
@@ -409,14 +416,23 @@ def check_returns_map_result(ctx, fx, f, b, inst, op, tuple_field=None):
 def check_spawn_on_demand(ctx, fx, f, b, n, inst):
     # reuse branch: get -> ... -> filter(running)
     reuse_ok = False
-    for _, t in b.normal_calls():
-        if (t.get("callee") or "").endswith("::filter") and filter_is_running(ctx, fx, b, t):
-            names = [x["callee"].split("::")[-1] for x in chain(b, t["args"][0])]
-            if any(nm in ("get", "get_mut") for nm in names):
-                reuse_ok = True
+    # the lookup and the spawn may each sit in a synchronous helper that is lent the locked table
+    bodies = [b] + [ctx.body(fx, g_) for g_ in graph.with_forwarded(fx, f)[1:]]
+    for b_ in bodies:
+        for _, t in b_.normal_calls():
+            if (t.get("callee") or "").endswith("::filter") and filter_is_running(ctx, fx, b_, t):
+                names = [x["callee"].split("::")[-1] for x in chain(b_, t["args"][0])]
+                if any(nm in ("get", "get_mut") for nm in names):
+                    reuse_ok = True
     ctx.require(reuse_ok, "R08.3", inst + ":reuse-only-if-running", "a registered instance must be reused only if it is running", fn=f["def"], site=f["loc"])
     # spawn branch
     cl = [(bi, t) for bi, t in b.normal_calls() if (t.get("callee") or "").endswith("::create_loop")]
+    if not cl:
+        for b_ in bodies[1:]:
+            if any((t.get("callee") or "").endswith("::create_loop") for _, t in b_.normal_calls()):
+                b = b_
+                cl = [(bi, t) for bi, t in b.normal_calls() if (t.get("callee") or "").endswith("::create_loop")]
+                break
     if not ctx.require(len(cl) == 1, "R08.3", inst + ":one-create", "expected exactly one create_loop in spawn-on-demand", fn=f["def"], site=f["loc"]):
         return
     cbi, ct = cl[0]
